@@ -87,10 +87,17 @@ var props = []*prop{
 	},
 	{
 		ID: "C14", Binary: "simcore", Quick: 4000, Thorough: 100000, RunWall: 60 * time.Second,
-		Variants: []variant{{Scenario: "c14", Weight: 1}},
-		Real:     []string{"tars/selector/consistenthash, modhash (instrumented from the working tree)"},
+		Variants: []variant{{Scenario: "c14", Weight: 12}, {Scenario: "c14c", Weight: 1}},
+		Real:     []string{"tars/selector/consistenthash, modhash (instrumented from the working tree)", "cluster variant (1 run in 13): the full client stack with endpointManager failover, as in C15"},
 		Stub:     append([]string{"reference: independently built Ketama ring / mod-hash slot model in the harness"}, commonStub...),
-		Rule:     "one case = one simulated run: two selector instances, one driven by a tape-drawn history of 1-25 add/remove/refresh events, the other reaching the same set by another route; ~190 lookups (ring points and their +-1 neighbours, 0, MaxUint32, random codes) compared between the instances and with an independently built ring; then removal and addition of one endpoint (minimal disruption); distinct = distinct event-log hash; non-trivial = every run (each has a distinct drawn history)",
+		Rule:     "one case = one simulated run: two selector instances, one driven by a tape-drawn history of 1-25 add/remove/refresh events, the other reaching the same set by another route; ~190 lookups (ring points and their +-1 neighbours, 0, MaxUint32, random codes) compared between the instances and with an independently built ring; then removal and addition of one endpoint (minimal disruption); every 13th run is the cluster variant: 100-300 simulated seconds of calls carrying mod-hash / consistent-hash codes through a registry-discovered proxy while 2-5 scripted servers fail and recover, each call compared with the reference applied to the rotation at selection time; distinct = distinct (event-log hash, switch trace hash); non-trivial = at least one preemption or fault phase (the single-goroutine selector-level runs count as trivial)",
+	},
+	{
+		ID: "C15", Binary: "simcore", Quick: 600, Thorough: 20000, RunWall: 300 * time.Second,
+		Variants: []variant{{Scenario: "c15", Weight: 1}},
+		Real:     append([]string{"tars endpointManager, globalManager status check / refresh loops, AdapterProxy health accounting (instrumented)"}, fullStackReal...),
+		Stub:     append([]string{netStub, "registry -> scripted registry.Registrar through the existing tars.Registrar option", "servers -> 2-5 scripted peers with per-server timelines of healthy / silent / refusing phases"}, commonStub...),
+		Rule:     "one case = one simulated run of 100-300 simulated seconds: a registry-discovered servant with 2-5 scripted servers, each with 0-3 fault phases (silent or refusing for 2-100s, aligned around the 5-failure, 5s, 30s and 60s thresholds), a client calling every 50-1900ms with a 200-600ms time-out, status check every 0.5-2s; the rotation is sampled 4x per simulated second through an overlay accessor; distinct = distinct (event-log hash, switch trace hash); non-trivial = at least one preemption or fault phase",
 	},
 	{
 		ID: "C19", Binary: "simcore", Quick: 6000, Thorough: 120000, RunWall: 60 * time.Second,
